@@ -152,9 +152,10 @@ def inject(prog, err, at):
             return None, None  # a valid header: not an error case
         return head + " { inj_x(); end; }\n", files
     if err == "macro_cycle":
-        # a call cycle of 1-4 macros; each member is defined locally, and a drawn subset of the names is ALSO supplied
+        # a call cycle of 1-4 (or, rarely, up to 94) macros; each member is defined locally, and a drawn subset of the names is ALSO supplied
         # (with a harmless body) by an imported file - the local definition shadows the imported one
-        n = 1 + at % 4
+        # (sizes: two cases in six have a long ring of 5-94 macros)
+        n = 1 + at % 6 if at % 6 < 4 else 5 + (at // 6) % 90
         mask = (at // 4) % (1 << n)
         entry = (at // 64) % n
         names = [f"cyc{i}_zz" for i in range(n)]
